@@ -134,9 +134,9 @@ Proof.
       exfalso. assert (FP : freshr r p = 1).
       { destruct p; simpl in Hw; try discriminate; simpl in Z; unfold eqn in *;
         try (inv Hw; rewrite Nat.eqb_refl in Z; discriminate);
-        try (destruct (fxC (c_fix c)); inv Hw; rewrite Nat.eqb_refl in Z; discriminate).
-        - destruct rest; try discriminate. inv Hw. rewrite inl_cons, Nat.eqb_refl in Z. discriminate.
-        - inv Hw. unfold freshr. simpl. unfold eqn. rewrite Nat.eqb_refl. reflexivity. }
+        try (destruct (fxC (c_fix c)); inv Hw; rewrite Nat.eqb_refl in Z; discriminate);
+        try (destruct rest; try discriminate; inv Hw; rewrite inl_cons, Nat.eqb_refl in Z; simpl in Z; discriminate).
+        inv Hw. unfold freshr. simpl. unfold eqn. rewrite Nat.eqb_refl. reflexivity. }
       pose proof (cnt_ge (freshr r) _ _ _ Ht) as Ge.
       assert (X : 1 <= cnt (freshr r) (thr s)) by lia. pose proof (INF r (or_intror X)) as NF.
       pose proof (IM r) as M. unfold getd, mu1, getr in *. rewrite E, Mu in M.
